@@ -80,14 +80,19 @@ impl<T: Elem + SatisfyTraits<Tr>, M: MX, Tr: TrX + ?Sized> World<T, M, Tr> {
         let ev0 = realloc_events::<M>();
         let a = &mut self.a;
         let mut worst: Option<(usize, u64, u64)> = None;
+        let mut prev_ev = 0u64;
+        const PER_OCTAVE: u64 = 5; // growth factor >= ~1.15 passes; a constant-increment policy fails once the run is long enough
         let r = guarded(|| {
             let mut t = a.downcast_mut::<T>().unwrap();
             for i in 1..=PUSH_RUN {
                 t.push(T::fresh());
                 if i.is_power_of_two() {
                     let ev = { let _w = elem::WindowOff::new(); realloc_events::<M>() - ev0 };
+                    // logarithmic in total, and (geometric growth) a constant number of reallocations per doubling of the length
                     let bound = 4 * ((i + 1) as f64).log2().ceil() as u64 + 8;
                     if ev > bound && worst.is_none() { worst = Some((i, ev, bound)); }
+                    if i >= 16 && ev - prev_ev > PER_OCTAVE && worst.is_none() { worst = Some((i, ev - prev_ev, PER_OCTAVE)); }
+                    prev_ev = ev;
                 }
             }
         });
@@ -103,7 +108,7 @@ impl<T: Elem + SatisfyTraits<Tr>, M: MX, Tr: TrX + ?Sized> World<T, M, Tr> {
             Err(Caught::Injected) => out.faulted = true,
             Err(Caught::Panic(m)) => out.fail(Class::Cap, "unexpected-panic", format!("push run panicked: {m}")),
             Ok(()) => {
-                if let Some((i, ev, bound)) = worst { out.fail(Class::Cap, "growth-not-amortised", format!("{ev} reallocation events after {i} pushes (bound {bound}): growth is not geometric")); }
+                if let Some((i, ev, bound)) = worst { out.fail(Class::Cap, "growth-not-amortised", format!("{ev} reallocation events (bound {bound}) at / in the doubling ending at {i} pushes: growth is not geometric")); }
                 if !ok_contents { out.fail(Class::Vec, "push-run-contents", "contents after the push run are not the pushed values in order".into()); }
                 out.outcome.push_str("ok");
             }
